@@ -30,7 +30,7 @@ ASSUMPTIONS = [
     "orig_index is compared with the position in the list returned by the parse (creation order)",
 ]
 
-STD = re.compile(r'(?P<twp>(?P<twp_num>\d{1,3})(?P<ns>[ns])|XXXz)(?P<rge>(?P<rge_num>\d{1,3})(?P<ew>[ew])|XXXz)(?P<sec>\d{2}|XX)')
+STD = re.compile(r'(?P<twp>(?P<twp_num>[0-9]{1,3})(?P<ns>[ns])|XXXz)(?P<rge>(?P<rge_num>[0-9]{1,3})(?P<ew>[ew])|XXXz)(?P<sec>[0-9]{2}|XX)')
 SOURCES = [None, 'doc,1', 7]
 _p = None
 
